@@ -15,7 +15,7 @@ SRC = os.path.join(REPO, "src")
 BUILD = os.path.join(VERIF, "build")
 NPROC = int(os.environ.get("VERIF_JOBS", os.cpu_count() or 4))
 
-BASE_FLAGS = ["-O1", "-g", "-std=gnu11", "-D_GNU_SOURCE", "-DNDEBUG", "-fno-lto"]
+BASE_FLAGS = ["-O1", "-g", "-std=gnu11", "-D_GNU_SOURCE=", "-DNDEBUG", "-fno-lto"]
 SAN_FLAGS = ["-fsanitize=address,undefined", "-fno-sanitize-recover=undefined", "-fno-omit-frame-pointer"]
 GUARD = "ROOTSIM_VERIF"
 
@@ -224,3 +224,41 @@ def merge_rsched(reports):
     tot["exhaustive"] = exhaustive
     tot["deadline_hit"] = deadline
     return tot
+
+
+def rsched_scenarios(pid, label, binary, scenarios, d, workers=4):
+    """Run explorer scenarios [(name, args)], save replays of violations under replays/<pid>/.
+    Returns (reports, merged, violations[{signature, replay}])."""
+    reps = run_parallel([(lambda n=n, a=a: run_rsched(binary, a + ["--id", n, "--replay-dir", d],
+                                                      os.path.join(d, n + ".json"))) for n, a in scenarios], workers=workers)
+    m = merge_rsched(reps)
+    viol = []
+    for v in m["violations"]:
+        rp = save_replay(pid, os.path.basename(v["replay"]), v["replay"]) if os.path.exists(v["replay"]) else v["replay"]
+        viol.append({"signature": f"{label}[{v['scenario']}] {v['signature']}", "replay": rp, "count": v.get("count", 1)})
+    return reps, m, viol
+
+
+def scenario_table(reps):
+    return [{"id": r["id"], "args": r["args"], "mode": r["mode"], "bound_p": r["bound_p"], "bound_d": r["bound_d"],
+             "level_completed": r["level_completed"], "executions": r["executions"], "states": r["distinct_states"],
+             "transitions": r["distinct_transitions"], "outcomes": r["distinct_outcomes"], "exhaustive": r["exhaustive"]}
+            for r in reps]
+
+
+def rsched_replay(binary, path):
+    args = []
+    for line in open(path):
+        if line.startswith("args "):
+            args = line.split()[1:]
+        if line.startswith("flags "):
+            if "stateful=1" in line:
+                args.append("--stateful")
+            if "spurious=1" in line:
+                args.append("--spurious-cas")
+            m = re.search(r"budget=(\d+)", line)
+            if m:
+                args += ["--budget", m.group(1)]
+    env = dict(os.environ)
+    env.update(SAN_ENV)
+    return subprocess.run([binary, "--replay", path] + args, env=env).returncode
